@@ -157,6 +157,15 @@ def merge(summaries):
         merged['harness_errors'].extend(summary['harness_errors'])
         merged['harness_error_count'] += summary['harness_error_count']
         merged['inconclusive'].extend(summary['inconclusive'])
+    # a key that two shards (two processes, disjoint cases) observed independently has been observed twice: confirmed
+    per_key = collections.Counter(entry['key'] for entry in merged['flaky'])
+    confirmed = set(key for key, count in per_key.items() if count >= 2) | \
+        set(entry['key'] for entry in merged['flaky'] if any(v['key'] == entry['key'] for v in merged['violations']))
+    if confirmed:
+        for key in sorted(confirmed):
+            if not any(v['key'] == key for v in merged['violations']):
+                merged['violations'].append(next(entry for entry in merged['flaky'] if entry['key'] == key))
+        merged['flaky'] = [entry for entry in merged['flaky'] if entry['key'] not in confirmed]
     return merged
 
 
